@@ -181,6 +181,26 @@ def timeline(state):
     return [it for _, it in sorted(items, key=lambda p: p[0])]
 
 
+def with_flag_facts(items):
+    """timeline items, plus — for a fact about a local that holds the unchanged result of a test (`int is_x = TEST(o); if (is_x)`) — the same fact about TEST(o)"""
+    held = {}
+    for it in items:
+        yield it
+        if it[0] == 'write':
+            held.pop(it[1], None)
+            for v in [v for v, (txt, ids) in held.items() if it[1] in ids]:
+                del held[v]
+            if isinstance(it[2], tuple) and it[2][0] == '=' and re.fullmatch(WORD, it[1] or ''):
+                try:
+                    e = P._parse(it[2][1])
+                except Exception:
+                    continue
+                if P._strip(e)[0] in ('call', 'bin'):
+                    held[it[1]] = (P.show(e), {x[1] for x in P._cx.walk(e) if x[0] == 'id'})
+        elif it[0] == 'fact' and isinstance(it[2], bool) and it[1] in held:
+            yield ('fact', held[it[1]][0], it[2])
+
+
 # ====================================================================================================== C31-SENTINEL
 FRESH_PLAIN = {'PyList_New', 'PyDict_New', 'PyObject_New', '_PyObject_New', 'PyCapsule_New'}
 FRESH_CALL_OBJECT = {'PyObject_CallObject', 'PyObject_CallNoArgs', '__Pyx_PyObject_CallNoArg', 'PyObject_CallFunctionObjArgs', 'PyObject_CallFunction', '_PyObject_CallNoArgs'}
@@ -2145,7 +2165,7 @@ def dict_only_params(ctx):
                 tempita_dict = any(('Exact' in c and 'Dict' in c and not c.startswith('not:') and c != 'else') for c in ch)
                 for state, ex in paths:
                     known = set()
-                    for it in timeline(state):
+                    for it in with_flag_facts(timeline(state)):
                         if it[0] == 'fact' and it[2] is True:
                             m = DICT_GUARD.match(it[1])
                             if m:
@@ -2192,12 +2212,15 @@ def rule_dictonly(ctx, sym=None, floor=5):
         for ch, paths in res:
             for state, ex in paths:
                 known = set()
-                for it in timeline(state):
+                passed = set()
+                for it in with_flag_facts(timeline(state)):
                     if it[0] == 'fact' and it[2] is True and DICT_GUARD.match(it[1]):
+                        # one test of a disjunction (`PyDict_CheckExact(o) || PyFrozenDict_CheckExact(o)`) passed: o is a dict whatever the earlier tests said
+                        passed.add(DICT_GUARD.match(it[1]).group(2))
                         known.add(DICT_GUARD.match(it[1]).group(2))
-                    elif it[0] == 'fact' and it[2] is False and DICT_GUARD.match(it[1]):
-                        known.discard(DICT_GUARD.match(it[1]).group(2))
-                        # on the path where the check FAILED the object is known not to be a dict
+                        known.discard('!' + DICT_GUARD.match(it[1]).group(2))
+                    elif it[0] == 'fact' and it[2] is False and DICT_GUARD.match(it[1]) and DICT_GUARD.match(it[1]).group(2) not in passed:
+                        # on a path where every dict test made so far FAILED the object may be any non-dict
                         known.add('!' + DICT_GUARD.match(it[1]).group(2))
                     elif it[0] == 'call' and it[1] in need:
                         for i in need[it[1]]:
@@ -2219,7 +2242,8 @@ def rule_dictonly(ctx, sym=None, floor=5):
         t = NS('type ' + tdesc, **flags)
         t.__dict__['_getattr'] = lambda n: (False if n.startswith('is_') else OPQ)
         subj = NS('subject', _ctor='MockSubject', type=t, pos='POS')
-        o = sym.obj(mp, pos='POS', keys=[_key_mock('k0', True)], value_patterns=[], as_targets=[])
+        # the state check_all_keys finds when get_comparison_node calls it: one value pattern and one sub-subject per key (generate_subjects has run)
+        o = sym.obj(mp, pos='POS', keys=[_key_mock('k0', True)], value_patterns=[Rec('v0').ns], subject_temps=[NS('temp0', _ctor='MockTemp')], as_targets=[])
         node = sym.run('MatchMappingPatternNode.check_all_keys', f_keys, [o, subj])
         hname = (node.__dict__.get('_pos') or [None, None])[1] if ctor_is(node, 'PythonCapiCallNode') and len(node.__dict__.get('_pos') or []) > 1 else None
         key = '%s.MatchMappingPatternNode.check_all_keys:%s' % (MOD, tdesc.replace(' ', '_'))
